@@ -168,6 +168,13 @@ upto[lazy]: /[a-zA-Z0-9_ ]*=/
     g!("stopl_done", Lark, "stopl", r##"start: body "done"
 body[stop=";"]: /[a-z]*/
 "##),
+    g!("stopl_eos", Lark, "stopl", r##"start: "x" body "!"
+body[stop=""]: /[a-z]*/
+"##),
+    g!("stopl_eos_tail", Lark, "stopl", r##"start: body tail
+body[stop=""]: /[a-z ]*/
+tail: "ok" | "okay" | /[0-9]+/ "."
+"##),
     g!("stopl_two", Lark, "stopl", r##"start: "q:" ans tail
 ans[stop="."]: /[a-z ]*/
 tail: "ok" | "okay" | /[0-9]+/ "!"
